@@ -299,3 +299,65 @@ package reconciler
 //@   flag dyncall.GetObjectStatus=pure
 //@   flag assumepre=the-retry-queues-are-built-once-by-newRetries-and-never-reassigned
 //@   ensures @leaves-the-round-counter-alone incr.numReconciled == old(incr.numReconciled)
+
+// The heap.Interface implementation under container/heap (C16): comparison goes to the
+// queue's own ordering with the queue's own items; Swap/Push/Pop keep every item's recorded
+// position equal to its slot (Remove and Fix are called with those positions).
+//@ func (*retryPrioQueue).Less
+//@   property C16
+//@   flag nosafety
+//@   maypanic
+//@   flag dyncall.less=pure
+//@   requires hq != nil
+//@   atcall less@1 requires @own-items-same-positions $0 == hq.items && $1 == i && $2 == j
+//@   mustcall less@1 when @always true
+//@ func (*retryPrioQueue).Swap
+//@   property C16
+//@   flag nosafety
+//@   maypanic
+//@   flag dyncall.setIndex=pure
+//@   requires hq != nil && 0 <= i && i < len(hq.items) && 0 <= j && j < len(hq.items)
+//@   atcall setIndex@1 requires @position-recorded-after-the-swap $0 == hq.items[i] && $1 == i && hq.items[i] == old(hq.items[j])
+//@   atcall setIndex@2 requires @position-recorded-after-the-swap $0 == hq.items[j] && $1 == j && hq.items[j] == old(hq.items[i])
+//@   mustcall setIndex@1 when @always true
+//@   mustcall setIndex@2 when @always true
+//@   ensures @swapped hq.items[i] == old(hq.items[j]) && hq.items[j] == old(hq.items[i]) && len(hq.items) == old(len(hq.items))
+//@ func (*retryPrioQueue).Push
+//@   property C16
+//@   flag nosafety
+//@   maypanic
+//@   flag dyncall.setIndex=pure
+//@   requires hq != nil
+//@   atcall setIndex@1 requires @recorded-position-is-the-new-last-slot $0 == unboxptr(x) && $1 == old(len(hq.items))
+//@   mustcall setIndex@1 when @always true
+//@   ensures @appended len(hq.items) == old(len(hq.items)) + 1 && hq.items[len(hq.items) - 1] == unboxptr(x)
+//@ func (*retryPrioQueue).Pop
+//@   property C16
+//@   flag nosafety
+//@   maypanic
+//@   flag dyncall.setIndex=pure
+//@   requires hq != nil && len(hq.items) > 0
+//@   atcall setIndex@1 requires @removed-item-marked-as-not-queued $0 == old(hq.items[len(hq.items) - 1]) && $1 == -1
+//@   mustcall setIndex@1 when @always true
+//@   ensures @last-removed len(hq.items) == old(len(hq.items)) - 1 && unboxptr(result) == old(hq.items[len(hq.items) - 1])
+// The position recorders of the two heaps write the field of their own heap.
+//@ func newRetries$2
+//@   property C16
+//@   flag nosafety
+//@   requires item != nil
+//@   ensures @time-heap-position item.index == idx && item.revIndex == old(item.revIndex)
+//@ func newRetries$4
+//@   property C16
+//@   flag nosafety
+//@   requires item != nil
+//@   ensures @revision-heap-position item.revIndex == idx && item.index == old(item.index)
+//@ func (*retries).Top returns (item, ok)
+//@   property C16
+//@   flag nosafety
+//@   requires rq != nil && rq.queue != nil
+//@   ensures @top-of-the-time-heap (ok <==> len(rq.queue.items) > 0) && (ok ==> item == rq.queue.items[0])
+//@ func (*retries).Wait
+//@   property C16
+//@   pure
+//@   requires rq != nil
+//@   ensures result == rq.waitChan
